@@ -314,7 +314,7 @@ rows_agg = st.lists(st.fixed_dictionaries({'a': st.sampled_from([0, 1, 2, 1, 2, 
                                            'b': st.one_of(integral, integral, row_number)}, optional={'c': st.sampled_from([1, '1', '1.0', None])}),
                     min_size=2, max_size=8)
 nested = gv.values(2, st.one_of(st.none(), st.booleans(), any_number, gv.strings), 4)
-EXPRS = ['a > 1', 'b', 'a + b', 'a == b', 'a * 2', 'stringNew(a)', 'a % 2 == 0', 'n + a', 'mathFloor(b)']
+EXPRS = ['a > 1', 'b', 'a + b', 'a == b', 'a * 2', 'stringNew(a)', 'a % 2 == 0', 'n + a', 'mathFloor(b)', 'a +', '(', 'a b', '']
 ISO = ['2020-01-02', '2020-01-02T03:04:05Z', '2020-01-02T03:04:05.678+01:00', '2020-13-01', 'x']
 SCHEMA = ['struct A', '  int a', '  optional float(>= 1) b', 'typedef int[len > 0] B', 'enum E', '  X', '']
 CSV = ['a,b', '1,2', '1.0,x', '3,', '"q, r",4', 'a,b\n1,2\n3,4', 'a,b,a', '1,2,3,4', '5', 'a,a', ',', 'x,y,z,w,v', '']
@@ -429,6 +429,14 @@ def call_strategy(draw, names):
     args = []
     if model is None:
         return name, [draw(anything) for _ in range(crnd.randint(0, 4))]
+    if name == 'mathLog' and crnd.random() < 0.35:
+        base = crnd.choice([2, 3, 5, 7, 10, 10, 10, 12, 16])
+        x = base ** crnd.randint(1, 12 if base < 10 else 9)
+        return name, ([x, base] if crnd.random() < 0.8 or base != 10 else [x])          # exact powers: the quotient of logarithms is often off by one ulp
+    if name == 'numberToFixed' and crnd.random() < 0.3:
+        if crnd.random() < 0.6:
+            return name, [crnd.choice([1, -1]) * crnd.randint(10 ** 12, 10 ** 15 - 1), crnd.randint(0, 6), crnd.choice([True, True, False, 1, None])]
+        return name, [crnd.randint(-9, 9), crnd.randint(15, 30), crnd.choice([True, True, False])]
     if name == 'datetimeNew' and crnd.random() < 0.2:
         # huge time components that cancel each other (hour H with minute -60 H + m, ...): every component and every carry is an exactly
         # representable number, the result is an ordinary datetime
